@@ -2,6 +2,7 @@ import PRV.Model.Delivery
 import PRV.Model.Tracking
 import PRV.Props.C11
 import PRV.Gen.C07
+import PRV.Gen.C09b
 /-
 C09 — Delivery to a contract tracks the contracted rate.
 Theorems about the cycle accounting of `Model/Delivery.lean`.  Partial: the accounting is proved
@@ -399,5 +400,13 @@ theorem swapped_order_loses_a_miner :
   revert this; decide
 
 end tracking
+
+
+/-! ### miner-disconnect events reach the watcher (regenerated) -/
+
+/-- `ChanRecvStop.Send` blocks until the watcher takes the event (or the channel is stopped): it has no `default` arm, so a
+disconnect that arrives while the watcher is busy with another one is delivered afterwards, not dropped — every leaving
+miner's owed amount goes back into the request (`replace_books_what_is_owed`) -/
+theorem source_disconnect_events_are_not_dropped : PRV.Gen.C09b.sendArms = ["<-c.StopCh", "c.DataCh <- data"] := by decide
 
 end PRV.Props.C09
